@@ -84,52 +84,34 @@ def valid_embedding(m, pat, host, nok):
     return True
 
 
-def check(case):
-    from synkit.Graph.Matcher.graph_matcher import GraphMatcherEngine
-    from synkit.Graph.Matcher.subgraph_matcher import SubgraphMatch
-    from synkit.Graph.Matcher import graph_morphism as gmor
+def engine_part(a, b, kind, attrs, fails, GraphMatcherEngine):
+    """GraphMatcherEngine verdicts and embeddings for one attribute selection (the hcount rule always applies)"""
+    sel = tuple(attrs)
 
-    sa, sb, kind = case
-    fails = []
-    ncalls = 0
-    GraphMatcherEngine._wl_cache.clear()
-    nok = node_ok_h  # engine semantics (hcount absent == 0)
-    a = build(sa, kind, 0)  # ids 1..n
-    b = build(sb, kind, 10)  # ids 11..
-    # ---------------- isomorphism verdicts
-    iso_ab = rm.isomorphic(b, a, nok, edge_ok)  # pattern=b, host=a  (obj1 = a plays host)
+    def nok(p, h):
+        return all(p.get(k) == h.get(k) for k in sel) and h.get("hcount", 0) >= p.get("hcount", 0)
+
+    tagsel = "attrs=" + (",".join(sel) or "none")
+    iso_ab = rm.isomorphic(b, a, nok, edge_ok)
     iso_ba = rm.isomorphic(a, b, nok, edge_ok)
     for wl in (False, True):
-        eng = GraphMatcherEngine(node_attrs=["element", "charge"], edge_attrs=["order"], wl1_filter=wl, max_mappings=None)
+        eng = GraphMatcherEngine(node_attrs=list(attrs), edge_attrs=["order"], wl1_filter=wl, max_mappings=None)
         g1 = eng.isomorphic(a, b)
         g2 = eng.isomorphic(b, a)
-        ncalls += 2
         if g1 not in (iso_ab, iso_ba) or g2 not in (iso_ab, iso_ba):
-            fails.append(Fail("isomorphic", f"wl={wl}: ({g1},{g2})", f"definition: host=obj1 {iso_ab}, host=obj2 {iso_ba}", key_extra=f"wl={wl}"))
+            fails.append(Fail("isomorphic", f"{tagsel} wl={wl}: ({g1},{g2})", f"definition: host=obj1 {iso_ab}, host=obj2 {iso_ba}", key_extra=f"{tagsel},wl={wl}"))
         elif iso_ab == iso_ba and g1 != g2:
-            fails.append(Fail("isomorphic_asymmetric", f"wl={wl}: ({g1},{g2})", f"{iso_ab} both ways", key_extra=f"wl={wl}"))
-    if kind == "v":
-        g = gmor.graph_isomorphism(a, b, use_defaults=True)
-        ncalls += 1
-        if g != iso_ab:
-            fails.append(Fail("graph_isomorphism", str(g), str(iso_ab)))
-        m = gmor.find_graph_isomorphism(a, b, node_match=lambda x, y: node_eq(x, y), edge_match=edge_ok)
-        ncalls += 1
-        if (m is not None) != iso_ab or (m is not None and not valid_embedding(m, a, b, node_eq)):
-            fails.append(Fail("find_graph_isomorphism", str(m), f"mapping iff {iso_ab}"))
-    # ---------------- embeddings: pattern a in host b, and pattern b in host a
+            fails.append(Fail("isomorphic_asymmetric", f"{tagsel} wl={wl}: ({g1},{g2})", f"{iso_ab} both ways", key_extra=f"{tagsel},wl={wl}"))
     contained_any = False
     for pat, host, tag in ((a, b, "a_in_b"), (b, a, "b_in_a")):
         want = [m for m in rm.morphisms(pat, host, nok, edge_ok, induced=True)]
-        wset = {tuple(sorted(m.items())) for m in want}
         contained_any = contained_any or bool(want)
         res_sets = {}
         for wl in (False, True):
             for mm in (None, 1):
-                eng = GraphMatcherEngine(node_attrs=["element", "charge"], edge_attrs=["order"], wl1_filter=wl, max_mappings=mm)
+                eng = GraphMatcherEngine(node_attrs=list(attrs), edge_attrs=["order"], wl1_filter=wl, max_mappings=mm)
                 res = eng.get_mappings(host, pat)
-                ncalls += 1
-                key = f"{tag},wl={wl},max={mm}"
+                key = f"{tagsel},{tag},wl={wl},max={mm}"
                 bad = [m for m in res if not valid_embedding(dict(m), pat, host, nok)]
                 if bad:
                     fails.append(Fail("invalid_embedding", f"{key}: {bad[0]}", "a pattern->host embedding", key_extra=key))
@@ -139,8 +121,41 @@ def check(case):
                     fails.append(Fail("max_mappings", f"{key}: {len(res)}", "<= 1", key_extra=key))
                 if mm is None:
                     res_sets[wl] = {tuple(sorted(dict(m).items())) for m in res}
-        if not fails and res_sets[False] != res_sets[True]:
-            fails.append(Fail("filter_changes_result_set", f"{tag}: {len(res_sets[False])} vs {len(res_sets[True])}", "same set", key_extra=tag))
+        if res_sets[False] != res_sets[True]:
+            fails.append(Fail("filter_changes_result_set", f"{tagsel} {tag}: {len(res_sets[False])} vs {len(res_sets[True])}", "same set", key_extra=f"{tagsel},{tag}"))
+    return iso_ab or iso_ba or contained_any
+
+
+def check(case):
+    from synkit.Graph.Matcher.graph_matcher import GraphMatcherEngine
+    from synkit.Graph.Matcher.subgraph_matcher import SubgraphMatch
+    from synkit.Graph.Matcher import graph_morphism as gmor
+
+    sa, sb, kind = case
+    fails = []
+    ncalls = 0
+    GraphMatcherEngine._wl_cache.clear()
+    a = build(sa, kind, 0)  # ids 1..n
+    b = build(sb, kind, 10)  # ids 11..
+    nontriv_any = False
+    for attrs in (["element", "charge"], []):
+        nt = engine_part(a, b, kind, attrs, fails, GraphMatcherEngine)
+        nontriv_any = nontriv_any or nt
+        ncalls += 12
+    nok = node_ok_h
+    iso_ab = rm.isomorphic(b, a, nok, edge_ok)
+    iso_ba = rm.isomorphic(a, b, nok, edge_ok)
+    if kind == "v":
+        g = gmor.graph_isomorphism(a, b, use_defaults=True)
+        ncalls += 1
+        if g != iso_ab:
+            fails.append(Fail("graph_isomorphism", str(g), str(iso_ab)))
+        m = gmor.find_graph_isomorphism(a, b, node_match=lambda x, y: node_eq(x, y), edge_match=edge_ok)
+        ncalls += 1
+        if (m is not None) != iso_ab or (m is not None and not valid_embedding(m, a, b, node_eq)):
+            fails.append(Fail("find_graph_isomorphism", str(m), f"mapping iff {iso_ab}"))
+    contained_any = nontriv_any
+    for pat, host, tag in ((a, b, "a_in_b"), (b, a, "b_in_a")):
         # ---------------- boolean subgraph tests (attribute equality; no hcount rule there)
         if kind == "v":
             for induced in (True, False):
